@@ -890,7 +890,8 @@ pub fn ser(cx: &mut Raw) {
         // time constants far from the present (any fixed-width sub-second encoding of them overflows)
         "timestamp('2300-01-01T00:00:00Z')", "timestamp('1600-01-01T00:00:00Z')", "timestamp('0001-01-01T00:00:00Z')", "timestamp('9999-12-31T23:59:59Z')",
         "timestamp(253402300799)", "timestamp(-62135596800)", "[timestamp('2262-04-12T00:00:00Z'), timestamp('1677-09-21T00:00:00Z')]",
-        "duration(9000000000, 0)", "duration(-9000000000, 0)", "duration('2540400h')", "{'t': timestamp('3000-06-01T00:00:00Z')}",
+        "duration(9000000000, 0)", "duration(-9000000000, 0)", "duration(9007199254740, 993000000)", "duration(-9007199254740, -993000000)", "duration(9223372036854775)",
+        "[duration(9007199254741, 1000000), timestamp(9007199254741)]", "duration('2540400h')", "{'t': timestamp('3000-06-01T00:00:00Z')}",
         "1/0", "[1/0]", "{'k': 1 % 0}", "size(5)", "[1, 2][5]", "-(-9223372036854775807 - 1)",
         "a + b", "a.b.c", "a[b]", "f(a, b + 1)", "a.f(b)", "a ? b : c", "a || b && !c", "-a", "a in b", "a < b", "a <= b", "a == b", "a != b", "a >= b", "a > b", "a - b", "a * b", "a / b", "a % b",
         "[a, b]", "{'k': a, c: b}", "a.map(x, x + b)", "a.filter(x, x > b)", "a.reduce(acc, x, acc + x, 0)", "has(m.a)", "coalesce(m.zz, a)", "f'{a}-{b}'", "match a { case int: 1, case > b: 2, case _: 3 }",
@@ -1183,6 +1184,13 @@ pub fn sql(cx: &mut Raw) {
         sql_record(cx, &mcall(mcall(id("x"), "g", args.clone()), "f", args.clone()));
         sql_record(cx, &mcall(sel(id("x"), "y"), "f", args.clone()));
         sql_record(cx, &bin("+", call("f", args.clone()), mcall(id("x"), "f", args.clone())));
+    }
+    // a type constructor at the head of a member chain: the chain is still there in the SQL
+    for cast in ["int", "string", "timestamp", "bytes", "double", "bool"] {
+        let c = || call(cast, vec![id("x")]);
+        for t in [sel(c(), "name"), mcall(c(), "getFullYear", vec![]), idx(c(), id("i")), mcall(c(), "f", vec![lit(V::Int(1))]), sel(sel(c(), "a"), "b"), bin("+", sel(c(), "name"), lit(V::Int(1)))] {
+            sql_record(cx, &t);
+        }
     }
     // unsupported constructs
     for t in [T::Match { e: Box::new(id("a")), cases: vec![(Pat::Any, lit(V::Int(1)))] }, T::FStr(vec![Seg::Lit("a".into()), Seg::Expr(id("x"))]), lit(V::Bytes(vec![1])), bin("+", lit(V::Bytes(vec![1])), id("a"))] {
